@@ -1,5 +1,6 @@
 import Qats.Lemmas.RainflowMain
 import Qats.Lemmas.FindReversals
+import Qats.Lemmas.FindReversalsPlateauEnds
 /-!
 # C03 — cycle counts transform with the signal as physics demands
 
@@ -81,5 +82,54 @@ example : Refines ([0, 2, 1] : List Rat) [0, 0, 1, 2, 1] ∧
   refine ⟨?_, by decide +kernel⟩
   refine Refines.trans (Refines.insert [] 0 0 2 [1] (by decide +kernel)) ?_
   exact Refines.insert [0] 0 1 2 [1] (by decide +kernel)
+
+/-- Plateaus allowed, no hypothesis: no turning point is lost by the finder. The signal has the same turning points as
+its first two samples followed by the extracted values and the last sample (between consecutive extracted points the
+signal is weakly monotone). -/
+theorem find_reversals_keeps_turning_points (a b : α) (rest : List α) :
+    reversals false (a :: b :: rest) =
+      reversals false (a :: b :: ((Qats.FindReversals.findReversals (a :: b :: rest)).map Prod.snd ++
+        [rest.getLastD b])) := by
+  simp only [reversals, Qats.FindReversals.findReversals]
+  rw [← Qats.FindReversals.revLoop_frG 1 (decide (b < a)) b (b - a) rest]
+
+/-- `signal.find_reversals` on ANY signal (plateaus allowed): whenever the first and the last extracted value are the
+first and the last turning point of the signal (the complement of the shape of known finding F8b) and at least two
+turning points exist, `reversals(…, endpoints=True)` applied to the extracted values returns exactly the turning
+points of the signal; and every extracted index carries its value. -/
+theorem find_reversals_spec_plateaus (x pts : List α) (hp : reversals false x = some pts) (h2 : 2 ≤ pts.length)
+    (hh : ((Qats.FindReversals.findReversals x).map Prod.snd).head? = pts.head?)
+    (hl : ((Qats.FindReversals.findReversals x).map Prod.snd).getLast? = pts.getLast?) :
+    reversals true ((Qats.FindReversals.findReversals x).map Prod.snd) = some pts ∧
+      ∀ p ∈ Qats.FindReversals.findReversals x, x[p.1]? = some p.2 := by
+  refine ⟨Qats.FindReversals.findReversals_recount x pts hp h2 hh hl, ?_⟩
+  intro p hp'
+  match x, hp' with
+  | a :: b :: rest, hp' =>
+    have := Qats.FindReversals.frLoop_index 1 (decide (b < a)) [a] (b :: rest) rfl p hp'
+    simpa using this
+
+/-- … hence counting the finder's output with end points reproduces the count of the signal, plateaus or not. -/
+theorem recount_find_reversals_plateaus (x pts : List α) (hp : reversals false x = some pts) (h2 : 2 ≤ pts.length)
+    (hh : ((Qats.FindReversals.findReversals x).map Prod.snd).head? = pts.head?)
+    (hl : ((Qats.FindReversals.findReversals x).map Prod.snd).getLast? = pts.getLast?) :
+    countCycles true ((Qats.FindReversals.findReversals x).map Prod.snd) = countCycles false x := by
+  unfold countCycles cycles
+  rw [(find_reversals_spec_plateaus x pts hp h2 hh hl).1, hp]
+
+/-- Non-vacuity of the plateau theorems: a signal with a descending plateau between two turning points (the finder
+reports both 3's), hypotheses and conclusion evaluated. -/
+example : reversals false ([0, 4, 3, 3, 1, 5, 0] : List Rat) = some [4, 1, 5] ∧ 2 ≤ ([4, 1, 5] : List Rat).length ∧
+    (Qats.FindReversals.findReversals ([0, 4, 3, 3, 1, 5, 0] : List Rat)).map Prod.snd = [4, 3, 3, 1, 5] ∧
+    ([4, 3, 3, 1, 5] : List Rat).head? = ([4, 1, 5] : List Rat).head? ∧
+    ([4, 3, 3, 1, 5] : List Rat).getLast? = ([4, 1, 5] : List Rat).getLast? ∧
+    reversals true ([4, 3, 3, 1, 5] : List Rat) = some [4, 1, 5] := by
+  decide +kernel
+
+/-- The excluded shape (F8b): the first extracted value is not a turning point, and the recount differs. -/
+example : reversals false ([5, 3, 3, 1, 4, 0] : List Rat) = some [1, 4] ∧
+    (Qats.FindReversals.findReversals ([5, 3, 3, 1, 4, 0] : List Rat)).map Prod.snd = [3, 3, 1, 4] ∧
+    reversals true ([3, 3, 1, 4] : List Rat) = some [3, 1, 4] := by
+  decide +kernel
 
 end Qats.Props.C03
